@@ -81,7 +81,10 @@ func runCase(t *testing.T) func(Case) pbt.Result {
 						kinds["concurrent-closers"]++
 					}
 					for _, o := range e.Ops {
-						if !o.Done() && (o.Kind == "sync") {
+						if !o.Done() && (o.Kind == "sync") && e.Pubs[o.P].IsHeld() && e.Pubs[o.P].InFlight() > 0 && syncsOutstanding(e, o.P) == 1 {
+							// certainly running: it is the only outstanding sync of its publisher and its block
+							// request is parked at the closed gate (a call that has not started yet when Close
+							// is called is legitimately refused)
 							heldExplicit[o] = true
 							kinds["close-while-explicit-sync-held"]++
 						}
@@ -165,6 +168,20 @@ func runCase(t *testing.T) func(Case) pbt.Result {
 		res.NonTrivial = kinds["close-while-sync-held"] > 0 || kinds["close-while-explicit-sync-held"] > 0 || kinds["concurrent-closers"] > 0 || kinds["post-after-close-returned"] > 0
 		return res
 	}
+}
+
+// syncsOutstanding counts the explicit syncs of a publisher that have not returned, plus 1 if it has unhandled announcements.
+func syncsOutstanding(e *world.Exec, p int) int {
+	n := 0
+	for _, o := range e.Ops {
+		if o.Kind == "sync" && o.P == p && !o.Done() {
+			n++
+		}
+	}
+	if e.Dirty(p) {
+		n++
+	}
+	return n
 }
 
 // closeReturnedStep: the first step index at which Close was known to have returned (conservative: the Close step itself).
